@@ -1,6 +1,233 @@
 package main
 
-import "time"
+import (
+	"fmt"
+	"strings"
+	"time"
 
-func clientWorker(tier string, deadline time.Time) *workerOut { return newOut("client") }
-func runClientScenario(name string) ([]finding, string)        { return nil, "" }
+	sio "github.com/karagenc/socket.io-go"
+	"github.com/karagenc/socket.io-go/adapter"
+	"github.com/karagenc/socket.io-go/internal/vrig"
+	"github.com/karagenc/socket.io-go/internal/vsched"
+)
+
+// Part C: the Go client tracking its own offset (rig R3: real sio.Manager <-> real sio.Server over the
+// in-process polling link). One handler signature per scenario; the server emits five events with
+// that signature: two live, two while the link is down, one after the reconnection.
+
+type sigKind struct {
+	name       string
+	lastString bool // the user's last argument is a string
+	args       func(i int) []any
+	handler    func(rec func(string)) any
+	show       func(i int) string // what the handler must record for event i
+}
+
+func sigKinds() []sigKind {
+	tag := func(i int) string { return fmt.Sprintf("tag%d", i) }
+	return []sigKind{
+		{"func(int)", false, func(i int) []any { return []any{i} },
+			func(rec func(string)) any { return func(a int) { rec(fmt.Sprint(a)) } },
+			func(i int) string { return fmt.Sprint(i) }},
+		{"func(string)", true, func(i int) []any { return []any{tag(i)} },
+			func(rec func(string)) any { return func(a string) { rec(a) } },
+			func(i int) string { return tag(i) }},
+		{"func(int,string)", true, func(i int) []any { return []any{i, tag(i)} },
+			func(rec func(string)) any { return func(a int, b string) { rec(fmt.Sprint(a, ",", b)) } },
+			func(i int) string { return fmt.Sprint(i, ",", tag(i)) }},
+		{"func(string,int)", false, func(i int) []any { return []any{tag(i), i} },
+			func(rec func(string)) any { return func(a string, b int) { rec(fmt.Sprint(a, ",", b)) } },
+			func(i int) string { return fmt.Sprint(tag(i), ",", i) }},
+		{"func(sio.Binary)", false, func(i int) []any { return []any{sio.Binary(binArg(i))} },
+			func(rec func(string)) any { return func(b sio.Binary) { rec(fmt.Sprintf("%x", []byte(b))) } },
+			func(i int) string { return fmt.Sprintf("%x", binArg(i)) }},
+		{"func()", false, func(i int) []any { return nil },
+			func(rec func(string)) any { return func() { rec("called") } },
+			func(i int) string { return "called" }},
+	}
+}
+
+func runClientScenario(name string) ([]finding, string) {
+	for _, k := range sigKinds() {
+		if k.name == name {
+			fs, herr, _ := runClientCase(k)
+			return fs, herr
+		}
+	}
+	return nil, "no such client scenario: " + name
+}
+
+func runClientCase(k sigKind) (fs []finding, herr string, steps int) {
+	add := func(key, format string, a ...any) {
+		fs = append(fs, finding{key, "handler " + k.name + ": " + fmt.Sprintf(format, a...)})
+	}
+	e := vsched.Run(vsched.Options{Horizon: 3 * time.Minute}, func(e *vsched.Exec) {
+		scfg := &sio.ServerConfig{ServerConnectionStateRecovery: sio.ServerConnectionStateRecovery{Enabled: true, MaxDisconnectionDuration: window}}
+		scfg.EIO.PingInterval = 2 * time.Second
+		scfg.EIO.PingTimeout = 3 * time.Second
+		delay := time.Second
+		jit := float32(0)
+		mcfg := &sio.ManagerConfig{ReconnectionDelay: &delay, ReconnectionDelayMax: &delay, RandomizationFactor: &jit}
+		srv, mgr, link := vrig.NewSioPair(scfg, mcfg)
+		var v vsched.Var
+		var ssocks []sio.ServerSocket
+		var srecovered []bool
+		srvDisc := 0
+		srv.OnConnection(func(s sio.ServerSocket) {
+			s.OnDisconnect(func(sio.Reason) { v.Do(func() { srvDisc++ }) })
+			rec := s.Recovered()
+			v.Do(func() { ssocks = append(ssocks, s); srecovered = append(srecovered, rec) })
+		})
+		nsp := srv.Of("/")
+		sock := mgr.Socket("/", nil)
+		var got, errs []string
+		connects, discs := 0, 0
+		var ids []string
+		var recoveredAt []bool
+		sock.OnConnect(func() {
+			id, rec := string(sock.ID()), sock.Recovered()
+			v.Do(func() { connects++; ids = append(ids, id); recoveredAt = append(recoveredAt, rec) })
+		})
+		sock.OnDisconnect(func(sio.Reason) { v.Do(func() { discs++ }) })
+		mgr.OnError(func(err error) { v.Do(func() { errs = append(errs, err.Error()) }) })
+		sock.OnEvent("ev", k.handler(func(s string) { v.Do(func() { got = append(got, s) }) }))
+		sock.Connect()
+		waitFor := func(d time.Duration, cond func() bool) bool {
+			for t := time.Duration(0); t < d; t += 100 * time.Millisecond {
+				ok := false
+				v.Do(func() { ok = cond() })
+				if ok {
+					return true
+				}
+				vsched.Sleep(100 * time.Millisecond)
+			}
+			return false
+		}
+		if !waitFor(10*time.Second, func() bool { return connects == 1 && len(ssocks) == 1 }) {
+			herr = "client never connected"
+			return
+		}
+		want := func(n int) string {
+			var w []string
+			for i := 1; i <= n; i++ {
+				w = append(w, k.show(i))
+			}
+			return strings.Join(w, " | ")
+		}
+		vsched.Sleep(time.Second)
+		ssocks[0].Emit("ev", k.args(1)...)
+		vsched.Sleep(500 * time.Millisecond)
+		nsp.Emit("ev", k.args(2)...)
+		vsched.Sleep(500 * time.Millisecond)
+		liveOK := strings.Join(got, " | ") == want(2)
+		if !liveOK {
+			key := "client: event not delivered intact on a recovery-enabled connection"
+			if k.lastString {
+				key = "client: last string argument eaten as offset"
+			}
+			add(key, "the server emitted 2 events with arguments %v and %v (+ the offset it appends); the handler recorded [%s], expected [%s]; manager errors %v", k.args(1), k.args(2), strings.Join(got, " | "), want(2), errs)
+		}
+		// the link goes down; both sides notice (heartbeat)
+		tDown := e.Clock()
+		link.V.Do(func() { link.Down = true })
+		if !waitFor(30*time.Second, func() bool { return discs >= 1 && srvDisc >= 1 }) {
+			herr = fmt.Sprintf("link down: client disconnects %d, server disconnects %d after 30 s", discs, srvDisc)
+			return
+		}
+		_, pids, _ := adapter.VerifSessionLog(nsp.Adapter())
+		if len(pids) != 1 {
+			herr = fmt.Sprintf("the server persisted %d sessions after the cut", len(pids))
+			return
+		}
+		nsp.To(sio.Room(ids[0])).Emit("ev", k.args(3)...)
+		vsched.Sleep(500 * time.Millisecond)
+		nsp.Emit("ev", k.args(4)...)
+		vsched.Sleep(500 * time.Millisecond)
+		postsBefore := 0
+		link.V.Do(func() { link.Down = false; postsBefore = len(link.Posts) })
+		tUp := e.Clock()
+		if !waitFor(30*time.Second, func() bool { return connects == 2 && len(ssocks) == 2 }) {
+			sentConnect, handshakes := 0, 0
+			link.V.Do(func() {
+				for _, p := range link.Posts[postsBefore:] {
+					if strings.HasPrefix(p, "40") {
+						sentConnect++
+					}
+				}
+				for _, l := range link.Log {
+					if strings.HasPrefix(l, "GET") && !strings.Contains(l, "sid=") {
+						handshakes++
+					}
+				}
+			})
+			key := "client: no reconnection after the link came back"
+			if sentConnect == 0 {
+				key = "client: socket never comes back after a reconnection (no CONNECT packet sent once it knows a pid)"
+			}
+			add(key, "30 s after the link is up again: OnConnect ran %d time(s), server sockets %d, Engine.IO handshakes attempted %d, CONNECT packets posted since the link is up %d, manager errors %v", connects, len(ssocks), handshakes, sentConnect, errs)
+			return
+		}
+		vsched.Sleep(time.Second)
+		var presented []string
+		link.V.Do(func() {
+			for _, p := range link.Posts[postsBefore:] {
+				if strings.HasPrefix(p, "40") {
+					presented = append(presented, p)
+				}
+			}
+		})
+		recovered := recoveredAt[1] && ids[1] == ids[0] && srecovered[1]
+		if !recovered {
+			add("client: reconnection within the window is not recovered",
+				"link down for %v (window %v); after the reconnection ClientSocket.Recovered()=%v, sid %s -> %s, ServerSocket.Recovered()=%v; the client's CONNECT packet was %v; handler calls so far [%s]; manager errors %v",
+				tUp-tDown, window, recoveredAt[1], ids[0], ids[1], srecovered[1], presented, strings.Join(got, " | "), errs)
+			return
+		}
+		ssocks[1].Emit("ev", k.args(5)...)
+		vsched.Sleep(time.Second)
+		if strings.Join(got, " | ") != want(5) && liveOK {
+			add("client: recovered, but the events were not delivered exactly once, in order and intact", "the handler recorded [%s], expected [%s] (events 3 and 4 were emitted while the link was down); manager errors %v", strings.Join(got, " | "), want(5), errs)
+		}
+	})
+	steps = e.Steps
+	if len(e.Panics) > 0 {
+		add("client: panic", "%v", e.Panics)
+	}
+	if e.Deadlock != "" {
+		add("client: deadlock", "%s", e.Deadlock)
+	}
+	if e.HarnessErr != "" && herr == "" {
+		herr = e.HarnessErr
+	}
+	return
+}
+
+func clientWorker(tier string, deadline time.Time) *workerOut {
+	o := newOut("client")
+	for _, k := range sigKinds() {
+		fs, herr, steps := runClientCase(k)
+		o.Cases++
+		o.Execs++
+		o.Steps += steps
+		o.Nontrivial++
+		if herr != "" {
+			o.harnessErr("handler " + k.name + ": " + herr)
+			continue
+		}
+		out := "ok"
+		if len(fs) > 0 {
+			out = "violation"
+		}
+		o.ByClass["must/"+out]++
+		for _, f := range fs {
+			a := o.Found[f.Key]
+			if a == nil {
+				a = &keyAgg{Msg: f.Msg, Replay: map[string]any{"part": "client", "scenario": k.name}}
+				o.Found[f.Key] = a
+			}
+			a.Count++
+		}
+	}
+	o.Samples = append(o.Samples, map[string]any{"part": "client", "scenario": "handler func(int): 2 live events, link down until both sides noticed, 2 events while away, link up, reconnection, 1 more event"})
+	return o
+}
